@@ -309,15 +309,21 @@ func (g *Gen) IterCase(nIters int) *Case {
 	c := &Case{Family: "iter"}
 	r := g.R
 	n := 3 + r.Intn(30)
-	ops, slot, b, count := g.subject(c, BatchOpts{NDocs: n, NVocab: 3 + r.Intn(5), NFields: 1 + r.Intn(3)})
+	opts := BatchOpts{NDocs: n, NVocab: 3 + r.Intn(5), NFields: 1 + r.Intn(3)}
+	dense := r.Intn(2) == 0
+	if dense { // long postings lists: many skips inside and across chunks
+		opts = BatchOpts{NDocs: 20 + r.Intn(30), NVocab: 3, NFields: 1, Dense: true, AllFields: true}
+	}
+	ops, slot, b, count := g.subject(c, opts)
 	fts := BatchTerms(b)
 	for i := 0; i < nIters; i++ {
 		ft := g.pickFT(fts)
 		o := Op{Code: OpIter, Slot: slot, F: ft.F, T: ft.T}
-		switch r.Intn(4) {
-		case 0:
+		switch r.Intn(5) {
+		case 0, 4:
 			o.ExceptNil = true
 			o.Except = []uint64{}
+			c.tag("clean_path")
 		case 1:
 			o.Except = []uint64{}
 		default:
@@ -660,20 +666,129 @@ func (g *Gen) ImmutCase() *Case {
 	c := &Case{Family: "immut"}
 	shape := 2 + g.R.Intn(3)
 	tree, _ := g.mergeTree(c, shape)
-	// dump slot 0 right after it was built, then after everything else happened
+	// dump every slot right after it was created, then again after everything else happened
 	var ops []Op
-	first := -1
-	for i, o := range tree {
+	firstObs := map[int]int{}
+	slot := -1
+	for _, o := range tree {
 		ops = append(ops, o)
-		if i == 0 {
-			ops = append(ops, Op{Code: OpObsAll, Slot: 0})
-			first = len(ops) - 1
+		slot++
+		ops = append(ops, Op{Code: OpObsAll, Slot: slot})
+		firstObs[slot] = len(ops) - 1
+	}
+	ops = append(ops, Op{Code: OpReload, Slot: slot, Kind: 1})
+	for s := 0; s <= slot; s++ {
+		ops = append(ops, Op{Code: OpObsAll, Slot: s})
+		c.Equal = append(c.Equal, []int{firstObs[s], len(ops) - 1})
+	}
+	c.Ops = ops
+	return c
+}
+
+// CopyPathMerge: segments with identical field lists merged without deletions
+// take the stored-field byte-copy path; sizes are chosen so that the output's
+// 128-document blocks end in the middle of a source block (C02, C03, C06).
+func (g *Gen) CopyPathMerge() *Case {
+	c := &Case{Family: "copy_path_merge"}
+	r := g.R
+	k := 2 + r.Intn(2)
+	nf := 1 + r.Intn(3)
+	var ops []Op
+	var ins []MergeIn
+	total := 0
+	for i := 0; i < k; i++ {
+		n := 40 + r.Intn(120)
+		b := g.Batch(BatchOpts{NDocs: n, NFields: nf, NVocab: 5, AllFields: true, IDPrefix: string(rune('a' + i)), BigValues: r.Intn(2) == 0})
+		for d := range b { // every document carries _id so that the field lists agree
+			has := false
+			for _, f := range b[d] {
+				if f.N == "_id" {
+					has = true
+				}
+			}
+			if !has {
+				b[d] = append(b[d], idField(string(rune('a'+i))+"x"+string(rune('0'+d%10)), true))
+			}
+		}
+		ops = append(ops, Op{Code: OpBuild, CM: g.ChunkMode(), Batch: b})
+		ins = append(ins, MergeIn{Slot: i, DropsNil: r.Intn(2) == 0, Drops: []uint64{}})
+		total += n
+	}
+	ops = append(ops, Op{Code: OpMerge, CM: g.ChunkMode(), Ins: ins})
+	c.tag("merge")
+	c.tag("copy_path")
+	if total > 128 {
+		c.tag("multi_block")
+		c.tag("block_edge")
+	}
+	ops = append(ops, Op{Code: OpObsAll, Slot: k})
+	for i := 0; i < 12; i++ {
+		ops = append(ops, Op{Code: OpStored, Slot: k, N: uint64(r.Intn(total))})
+	}
+	ops = append(ops, Op{Code: OpStored, Slot: k, N: 127}, Op{Code: OpStored, Slot: k, N: 128}, Op{Code: OpStored, Slot: k, N: uint64(total - 1)})
+	c.Ops = ops
+	return c
+}
+
+// BigMerge: an input segment with more than 1024 documents (several doc-value
+// chunks, adaptive multi-chunk postings) merged with a small one (C02).
+func (g *Gen) BigMerge() *Case {
+	c := &Case{Family: "big_merge"}
+	r := g.R
+	n := 1030 + r.Intn(200)
+	b := g.Batch(BatchOpts{NDocs: n, NFields: 2, NVocab: 4, ForceDV: true, NoStored: true})
+	b2 := g.Batch(BatchOpts{NDocs: 3 + r.Intn(5), NFields: 2, NVocab: 4, ForceDV: true, IDPrefix: "x"})
+	c.tagBatch(b, 1025)
+	d := g.subset(n, 7)
+	c.Ops = []Op{{Code: OpBuild, CM: 1025, Batch: b}, {Code: OpBuild, CM: 3, Batch: b2},
+		{Code: OpMerge, CM: 1025, Ins: []MergeIn{{Slot: 0, Drops: d}, {Slot: 1, DropsNil: true}}},
+		{Code: OpObsAll, Slot: 2}}
+	c.tag("merge")
+	c.tag("drops_and_survivors")
+	c.tag("multi_chunk")
+	return c
+}
+
+// DVHop: more than 2048 documents where one whole 1024-document chunk has no
+// terms in a doc-value field; one reader hops chunk A, the empty chunk, chunk A (C07, C13).
+func (g *Gen) DVHop() *Case {
+	c := &Case{Family: "dv_hop"}
+	r := g.R
+	n := 2100 + r.Intn(900)
+	hole := fieldNames[r.Intn(2)]
+	b := g.Batch(BatchOpts{NDocs: n, NFields: 2, NVocab: 4, ForceDV: true, NoStored: true, AllFields: true,
+		SkipField: func(d int) string {
+			if d >= 1024 && d < 2048 {
+				return hole
+			}
+			return ""
+		}})
+	ops := []Op{{Code: OpBuild, CM: 1025, Batch: b}}
+	slot := 0
+	if r.Intn(2) == 0 {
+		ops = append(ops, Op{Code: OpReload, Slot: 0, Kind: r.Intn(2)})
+		slot = 1
+	}
+	var visits []uint64
+	for i := 0; i < 24; i++ {
+		switch i % 3 {
+		case 0:
+			visits = append(visits, uint64(2048+r.Intn(n-2048)))
+		case 1:
+			visits = append(visits, uint64(1024+r.Intn(1024)))
+		default:
+			visits = append(visits, uint64(2048+r.Intn(n-2048)))
+		}
+		if r.Intn(4) == 0 {
+			visits = append(visits, uint64(r.Intn(1024)))
 		}
 	}
-	last := g.lastSlot(tree)
-	ops = append(ops, Op{Code: OpReload, Slot: last, Kind: 1})
-	ops = append(ops, Op{Code: OpObsAll, Slot: 0})
+	fs := BatchFields(b)
+	ops = append(ops, Op{Code: OpDV, Slot: slot, RdSlot: 1, Fields: fs, Visits: visits})
+	ops = append(ops, Op{Code: OpDV, Slot: slot, RdSlot: 1, Fields: fs, Visits: visits[:10]})
 	c.Ops = ops
-	c.Equal = [][]int{{first, len(ops) - 1}}
+	c.tag("dv_chunk_reentry")
+	c.tag("reader_reuse")
+	c.tag("multi_dvchunk")
 	return c
 }
